@@ -108,7 +108,7 @@ Example C07_label_example :
                    [ {| r_id := 1; r_method := L "GET"; r_rel := L "/a"; r_consumes := []; r_produces := [];
                         r_conds := []; r_noct := []; r_enc := None |} ] |} ] |};
                 d_cfilters := [ {| f_id := L "c0"; f_pre := [AHeader (L "X-A") (L "1"); ADelHeader (L "X-B")]; f_pass := true;
-                                   f_post := [AWrite (L "<tail>")]; f_fresh := false; f_mw := 0 |} ];
+                                   f_post := [AWrite (L "<tail>")]; f_fresh := false; f_mw := 0; f_wrap := false |} ];
                 d_sfilters := []; d_rfilters := []; d_handlers := [(1%Z, [AWrite (L "<body>")])];
                 d_encoding := true; d_recover := true; d_recover_script := [AStatus 500]; d_condpanic := []; d_plain := [] |} in
   let req := {| rq_method := L "POST"; rq_path := L "/a"; rq_headers := [(H_AcceptEncoding, L "deflate")]; rq_clen := 0 |} in
